@@ -73,8 +73,10 @@ CLAIMS = {
             'SE(2) as matrices with no side condition), landmark slots J\' = J R_T^-1 with R_T R_T^-1 = I; graph level (lib/GNSpec.v): for ANY per-vertex change '
             'of tangent basis J\' = J Q with Q P = I, every solution d of the normal equations gives the solution P d of the re-based system and chi2 is '
             'unchanged (basis_change_inv, via the C04 gradient-shift lemma); two abstract trajectory theorems (solver = function of an invariant '
-            'linearisation; solver = any map returning a solution of a uniquely solvable system, with transformed increments). Not formalised: the '
-            'instantiation gluing edge level to graph level, and solution uniqueness is a hypothesis; the metamorphic oracle covers the composition.',
+            'linearisation; solver = any map returning a solution of a uniquely solvable system, with transformed increments); the glue between edge level '
+            'and graph level is proved entry by entry for the landmark slots (J\'[a][j] = sum_m J[a][m] M[m][j] with M the rotation matrix of T^-1, i.e. the body '
+            'of tb_mat). Not formalised: packing the list-matrices of a whole graph into GraphModel records; solution uniqueness is a hypothesis; the '
+            'metamorphic oracle (transforms up to 1e7, iteration counts compared) and the reduced optimizer-loop correspondence cover the composition.',
             AX + TR + 'Over exact reals; floating-point agreement of trajectories is tested by the oracle with magnitude-aware tolerances.',
             'Coq proof over regenerated model (ring identities, uniqueness of derivative, induction over iterations) + metamorphic oracle'),
     'C08': ('proof',
